@@ -23,7 +23,8 @@ SPEC = dict(
         "evaluations on a matrix with s >= norm_eps that has at least one negative Gramian entry (a genuine projection is needed)"
     ),
     bound=dict(
-        quick="all ternary matrices of shapes <= 2x3 and 3x1,3x2; Near; D(seed) 3x4; eps pairs x straddling scales x P(m); row scalings L3^m on 2xn",
+        quick="all ternary matrices of shapes <= 2x3 and 3x1,3x2; Near; D(seed) 3x4; eps pairs x straddling scales x P(m); row scalings L3^m on 2xn; preference vectors P(m), also scaled by 1e-6/1e-9/1e-12 and in "
+              "float32/int64; extreme global scales 1e160/1e20; instance and buffer re-use histories",
         thorough="all ternary matrices up to 3x3, Near, D(seed) up to 5x4, row scalings L3^m on all shapes with m<=3",
     ),
     assumptions=[
